@@ -439,13 +439,14 @@ PENDING = []
 def report_oracle(ctx, c, fails, branch, impl, what):
     """Queue an oracle failure; flush_reports emits those with a value outside [0,1] first."""
     n = c["n"]
+    c["_oracle_failed"] = True
     worst = max(fails, key=excursion)
     first = worst if excursion(worst) > EPS else fails[0]
     key = None
     if c["kind"] == "icg" and c["stream"] == "float" and branch == "additive":
         key = KEY_RESIDUE
     M, s, eta, additive, tau, ztol = tolerances(n, c["v"]) if c["kind"] == "icg" else (None, None, None, None, EPS, EPS)
-    PENDING.append((0 if excursion(first) > EPS else 1, dict(
+    PENDING.append((0 if excursion(first) > EPS else 1, c["src"], dict(
         what=f"{what}: {c['src']} n={n}" + (f" seed={c['gen'][1]}" if c.get("gen") else "")
         + f": coalition {first[0]}: {first[1]}: {first[2]}",
         replay=case_replay(c, {"oracle": what, "offending_coalition": first[0], "offending": first[1], "observed": str(first[2]),
@@ -461,8 +462,20 @@ def report_oracle(ctx, c, fails, branch, impl, what):
         found_input=True, key=key)))
 
 
-def flush_reports(ctx):
-    for _, kw in sorted(PENDING, key=lambda p: p[0]):
+def flush_reports(ctx, per_source=3, total=30):
+    """Emit the queued oracle failures: values outside [0,1] first, at most `per_source` per input family;
+    the full counts go to the evidence."""
+    stats = ctx.coverage.setdefault("oracle_failures_on_implementation", {"total": 0, "by_source": {}, "by_known_finding_key": {}})
+    emitted = {}
+    n_emitted = 0
+    for _, src, kw in sorted(PENDING, key=lambda p: p[0]):
+        stats["total"] += 1
+        stats["by_source"][src] = stats["by_source"].get(src, 0) + 1
+        stats["by_known_finding_key"][str(kw["key"])] = stats["by_known_finding_key"].get(str(kw["key"]), 0) + 1
+        if emitted.get((src, kw["key"]), 0) >= per_source or n_emitted >= total:
+            continue
+        emitted[(src, kw["key"])] = emitted.get((src, kw["key"]), 0) + 1
+        n_emitted += 1
         ctx.violation(kw["what"], kw["replay"], found_input=kw["found_input"], key=kw["key"])
     del PENDING[:]
 
@@ -719,6 +732,7 @@ def run_gym(ctx):
     from incomplete_cooperative.generators import additive as repo_additive
     from incomplete_cooperative.icg_gym import ICG_Gym
     rng = ctx.rng
+    gym_reported = {}
     fams = ["oxs", "xos2", "xos3", "xos", "xs", "factory", "noisy_factory", "k_budget_generator", "covg_fn_generator",
             "graph_cycle", "graph_random", "additive()"]
     for name in fams:
@@ -761,6 +775,9 @@ def run_gym(ctx):
                 if any(v != 0 for v in hidden):
                     ctx.nontrivial.add(("gym", n, tuple(hidden)))
                 if bad:
+                    ctx.coverage["gym_observations_outside_box"] = ctx.coverage.get("gym_observations_outside_box", 0) + 1
+                if bad and gym_reported.get(name, 0) < 2:
+                    gym_reported[name] = gym_reported.get(name, 0) + 1
                     c = {"kind": "icg", "n": n, "v": hidden, "src": "gym:" + name, "stream": "float", "gen": (name, seed), "unknown": []}
                     ctx.violation(f"ICG_Gym.state leaves its declared Box(0,1): hidden game {name} n={n} seed={seed}: coalition {bad[0]} observed {bad[1]}",
                                   case_replay(c, {"oracle": "gym observation inside observation_space", "offending_coalition": bad[0],
@@ -768,6 +785,51 @@ def run_gym(ctx):
                                                   "note": "the hidden game is the second game drawn from the generator (the constructor draws one, reset() another)",
                                                   "expected": "0 <= state <= 1 (within tolerance)"}),
                                   found_input=True, key=KEY_RESIDUE if additive else None)
+
+
+# ---------------------------------------------------------------- extraction cross-check (model evaluated inside Coq)
+def coq_q(f: Fraction) -> str:
+    return f"(Qmake ({f.numerator})%Z {f.denominator}%positive)"
+
+
+def cross_check_extraction(ctx, cases, limit):
+    """Evaluate the model on a shard of the cases inside Coq (vm_compute) and require the result of the extracted OCaml
+    model (as printed by the driver) - removes extraction + driver printing from the trusted base for that shard."""
+    import subprocess
+    shard = [c for c in cases if c["kind"] == "icg" and c["n"] <= 4 and not c["unknown"]][:limit]
+    if not shard:
+        return
+    lines = []
+    for c in shard:
+        tab = [(True, float(x), float(x)) for x in c["v"]]
+        lines.append(f"nz_norm {c['n']} " + table_line(tab))
+    outs = common.run_driver(lines)
+    body = ["From ICG Require Import Prelude Bits Table Bounds GameOps Normalize.",
+            "Definition canon (n : nat) (r : option (table * (Q * list Q))) :=",
+            "  option_map (fun r => (map (fun c => let x := get (fst r) c in (known x, Qred (lo x), Qred (hi x))) (alln n),",
+            "                        (Qred (fst (snd r)), map Qred (snd (snd r))))) r."]
+    for k, (c, out) in enumerate(zip(shard, outs)):
+        n = c["n"]
+        size = 2 ** n
+        t = out.split()
+        s = tokq(t[1])
+        sv = [tokq(x) for x in t[2:2 + n]]
+        tab = parse_table(t[3 + n:3 + n + 3 * size], size)
+        rows = "; ".join(f"mkrow true {coq_q(frac(x))} {coq_q(frac(x))}" for x in c["v"])
+        exp_rows = "; ".join(f"({'true' if r[0] else 'false'}, {coq_q(r[1])}, {coq_q(r[2])})" for r in tab)
+        exp_sv = "; ".join(coq_q(x) for x in sv)
+        body.append(f"Example shard_{k} : canon {n} (nz_normalize_icg {n} (of_fun (alln {n}) (fun c => nth (N.to_nat c) [{rows}] row0)))")
+        body.append(f"  = Some ([{exp_rows}], ({coq_q(s)}, [{exp_sv}])).")
+        body.append("Proof. vm_compute. reflexivity. Qed.")
+    d = ctx.work / "shard"
+    d.mkdir(exist_ok=True)
+    (d / "cases_C15.v").write_text("\n".join(body) + "\n")
+    p = subprocess.run(["timeout", "600", "coqc", "-Q", str(common.COQ / "theories"), "ICG", "cases_C15.v"], cwd=d,
+                       capture_output=True, text=True)
+    ctx.coverage["extraction_cross_check"] = {"cases_evaluated_by_vm_compute_in_coq": len(shard), "agree_with_extracted_model": p.returncode == 0}
+    if p.returncode != 0:
+        ctx.violation("extracted OCaml model and the model evaluated inside Coq (vm_compute) disagree on a shard of the cases",
+                      {"relation": "driver output = vm_compute of nz_normalize_icg", "log": (p.stdout + p.stderr)[-1500:]}, found_input=False)
 
 
 # ---------------------------------------------------------------- search around a broken correspondence
@@ -794,6 +856,8 @@ def search_neighbours(ctx, mism):
             if not ok_sa:
                 continue
             fails, branch = oracle_normalised(n, v, impl["table"], impl["values"], impl["value_each"])
+            if fails and kind == "float" and branch == "additive":
+                continue        # that is the separately keyed finding, not an explanation of this disagreement
             fails = fails or oracle_roundtrip(n, v, impl["rt"])
             if fails:
                 cc = {"kind": "icg", "n": n, "v": v, "src": "search-neighbour", "stream": "float" if kind == "float" else "exact",
@@ -813,16 +877,13 @@ def run(ctx, proof):
     mism += run_graph(ctx, gcases)
     flush_reports(ctx)
     run_gym(ctx)
+    cross_check_extraction(ctx, cases, 6 if ctx.quick else 120)
     ctx.coverage["exhaustive"] = False
     ctx.coverage["model_implementation_disagreements"] = len(mism)
     ctx.coverage["first_disagreements"] = [{"source": c["src"], "n": c["n"], "generator": c.get("gen"), "detail": d} for c, d in mism[:8]]
     if mism:
         # a disagreement explained by an oracle failure on the same case needs no separate report
-        failing_inputs = {(tuple(v["replay"].get("values_hex") or []), str(v["replay"].get("matrix_hex")))
-                          for v in ctx.violations if v["found_input"]}
-        unexplained = [(c, d) for c, d in mism
-                       if (tuple(hexes(c["v"])) if c["kind"] == "icg" else (), str([hexes(r) for r in c["W"]]) if c["kind"] == "graph" else "None")
-                       not in failing_inputs]
+        unexplained = [(c, d) for c, d in mism if not c.get("_oracle_failed")]
         ctx.coverage["disagreements_without_oracle_failure_on_the_same_case"] = len(unexplained)
         if unexplained and not any(v["found_input"] and v.get("key") is None for v in ctx.violations):
             if not search_neighbours(ctx, unexplained):
